@@ -1,11 +1,11 @@
-//! C19 — Header stores conform to one abstract store model.   (engine E2)
+//! C21 — Stored headers always form fork-free hash-linked segments.   (engine E2)
 //!
 //! Thin main: the search, the reference model and the three oracles live in
 //! `../shared/store_model.rs` (one explicit-state search serving C19, C20 and C21); this
-//! binary reports the violations of the C19 oracle and writes its own evidence.
+//! binary reports the violations of the C21 oracle and writes its own evidence.
 #[path = "../shared/store_model.rs"]
 mod store_model;
 
 fn main() {
-    store_model::run("C19", store_model::Which::C19);
+    store_model::run("C21", store_model::Which::C21);
 }
